@@ -762,6 +762,7 @@ func genText(c *h.Ctx, om, skipCreated bool) ([]byte, []string) {
 				continue
 			}
 			for k, ls := range all {
+				before := sb.Len()
 				for _, l := range ls {
 					sb.WriteString(l.render(om) + "\n")
 				}
@@ -773,6 +774,9 @@ func genText(c *h.Ctx, om, skipCreated bool) ([]byte, []string) {
 				}
 				if cl.hasSum {
 					nser++
+				}
+				if genPendingLen == before && nser == 0 && (len(ls) == 0 || skipCreated) {
+					genPendingLen = sb.Len() // at most a swallowed `_created` line was added
 				}
 				if cl.valid && !noType && nser > 0 && key != prevKey {
 					gens = append(gens, cl.genLine(cl.ts))
